@@ -17,8 +17,10 @@ trap 'rm -rf "$out"' EXIT
 status=0
 for d in props/*/; do
     p=$(basename "$d")
+    # Only registered properties (those with an entry.json) are built.
+    [ -f "$d/entry.json" ] || continue
     race=""
-    if [ -f "$d/.race" ]; then race="-race"; fi
+    if grep -q '"race": *true' "$d/entry.json"; then race="-race"; fi
     if ! go1.26.8 test -c -tags verif $race -o "$out/$p.test" "./props/$p/" ; then
         echo "setup: building props/$p failed" >&2
         status=1
